@@ -384,13 +384,28 @@ def run(chk, repo):
     wi = [s for s in bb if isinstance(s, ast.If) and unparse(s.test) == "wnd is None"]
     chk.require(len(wi) == 1, "blk_gen: 'if wnd is None' not found")
     nowin, win = wi[0].body, wi[0].orelse
+    if not win and nowin and isinstance(nowin[-1], ast.Return) and nowin[-1].value is None:
+        # guard-clause form: the windowed loop is what follows the ``if``
+        nowin, win = nowin[:-1], bb[bb.index(wi[0]) + 1:]
+
+    def blocks_of(e):
+        """the loop source, through a local bound once (before the window test) to the block stream"""
+        if isinstance(e, ast.Name):
+            defs_ = [s_ for s_ in ast.walk(bg) if isinstance(s_, ast.Assign) and any(
+                isinstance(t_, ast.Name) and t_.id == e.id for t_ in s_.targets)]
+            uses_ = [n_ for n_ in ast.walk(wi[0]) if isinstance(n_, ast.For) and isinstance(n_.iter, ast.Name) and n_.iter.id == e.id]
+            if len(defs_) == 1 and defs_[0] in bb and bb.index(defs_[0]) < bb.index(wi[0]) \
+                    and sum(1 for a_ in (nowin, win) if any(u_ in list(ast.walk(ast.Module(body=a_, type_ignores=[]))) for u_ in uses_)) \
+                    == len(uses_):
+                return unparse(defs_[0].value)
+        return unparse(e)
     l0 = [s for s in nowin if isinstance(s, ast.For)]
-    ok = len(l0) == 1 and unparse(l0[0].iter) == "Stream(sig).blocks(size=size, hop=hop)" \
+    ok = len(l0) == 1 and blocks_of(l0[0].iter) == "Stream(sig).blocks(size=size, hop=hop)" \
         and [unparse(s) for s in l0[0].body] == ["yield process(%s)" % unparse(l0[0].target)]
     chk.decide(ok, "C09.order", Wb, "no window: " + (short(l0[0]) if l0 else "?"),
                why="each block of the signal (size, hop) is processed once", node=bg)
     l1 = [s for s in win if isinstance(s, ast.For)]
-    ok = len(l1) == 1 and unparse(l1[0].iter) == "Stream(sig).blocks(size=size, hop=hop)" and len(l1[0].body) == 2
+    ok = len(l1) == 1 and blocks_of(l1[0].iter) == "Stream(sig).blocks(size=size, hop=hop)" and len(l1[0].body) == 2
     if ok:
         b0, b1 = l1[0].body
         blkv = unparse(l1[0].target)
@@ -597,9 +612,11 @@ def _dispatch(chk, repo, mod, W, wr, bg):
                        why="a stage that was given (even None) is never replaced; an unspecified one gets its numpy default", node=bg)
         # with / without window
         tailb = [st for st in body[hi[0]:] if isinstance(st, ast.If)]
+        # the window test and whatever follows it (guard-clause form: the windowed loop comes after the ``if``)
+        emit = body[body.index(tailb[-1]):] if tailb else []
         for has in (False, True):
             F = Facts(none=[] if has else ["wnd"], kinds={"wnd": {"list"}} if has else {}, lens={"wnd": 4} if has else {})
-            w = walk(tailb[-1:], F, "blk_gen emit")
+            w = walk(emit, F, "blk_gen emit", strict=False)
             n_tab += 1
             allt = "\n".join(w.texts())
             uses = "wnd" in allt
